@@ -68,7 +68,7 @@ class C11(Prop):
         cfgs = adapter.configs()
         if adapter.name in TL_ENVS:
             if tier == "quick":
-                keep = [c for c in cfgs if c.get("clock") and c.get("tl") in (1, 3, None)]
+                keep = [c for c in cfgs if c.get("clock") and c.get("tl") in (1, 3, None) and not c.get("long_default")]
                 dflt = [c for c in cfgs if c.get("quick") and not c.get("clock")][:1]
                 return keep + dflt
             return cfgs
